@@ -75,6 +75,8 @@ with contextlib.redirect_stdout(sink):
                 objs[op["obj"]].set_randstate(RandState.mkFromSeed(op["k"], op["s"]))
             else:
                 objs[op["obj"]].set_randstate(RandState.mkFromSeed(op["k"]))
+        elif t == "mkstate":
+            snaps.append(RandState.mkFromSeed(op["k"]))
         elif t == "snap":
             snaps.append(objs[op["obj"]].get_randstate())
         elif t == "restore":
